@@ -73,9 +73,9 @@ def gen_parse(ctx):
     out = [("corpus", S.corpus_expr(l)) for l in S.load_corpus("C05") if not l.startswith("eval\t")]
     out += [("num", e) for e in numeric_extremes()]
     out += [("quoted", e) for e in malformed_quoted()]
-    out += S.expr_cases(ctx, 500 if q else 10000, 1500 if q else 40000, 1000 if q else 30000, 2500 if q else 80000, 1500 if q else 40000)
+    out += S.expr_cases(ctx, 500 if q else 50000, 1500 if q else 200000, 1000 if q else 150000, 2500 if q else 400000, 1500 if q else 200000)
     uni = ["\u0000", "‏", "́", "\U0001F600", "\U0010FFFF", "﻿", " ", "é", "ß", "中", "\x7f", "\x85"]
-    for _ in range(500 if q else 20000):
+    for _ in range(500 if q else 100000):
         out.append(("unicode", "".join(rng.choice(uni + G.CHARS) for _ in range(rng.randrange(1, 10)))))
     return out
 
@@ -106,7 +106,7 @@ def gen_eval(ctx):
         for e in fexprs:
             out.append((e, d))
     eg = G.ExprGen(rng, funcs=True)
-    for _ in range(2000 if q else 60000):
+    for _ in range(2000 if q else 300000):
         out.append((G.spell(rng, eg.expr()), rng.choice(big) if rng.random() < 0.2 else G.rand_doc(rng, 3)))
     return out
 
